@@ -2192,6 +2192,7 @@ CIF_INTFUNC_DECL(cif_pktitr_remove_packet, (
  * @return Returns @c CIF_OK on success, or else an error code characterizing the nature of the failure, normally one
  *         of:
  *         @li @c CIF_INVALID_ITEMNAME if one of the provided strings is not a valid CIF data name
+ *         @li @c CIF_DUP_ITEMNAME if two of the provided strings name the same item (they are equivalent data names)
  *         @li @c CIF_ERROR in most other cases
  */
 CIF_INTFUNC_DECL(cif_packet_create, (
